@@ -1,6 +1,7 @@
 package query
 
 import (
+	"bytes"
 	"context"
 	"fmt"
 	"io"
@@ -220,7 +221,15 @@ func (proc *Processor) ExecuteStatement(ctx context.Context, stmt parser.Stateme
 					} else {
 						writer = proc.Tx.Session.Stdout()
 					}
-					warn, e := EncodeView(ctx, writer, view, exportOptions, proc.Tx.Palette)
+					// The result is encoded completely before any of it is written: a value the
+					// format cannot spell refuses the whole result, not the rest of it.
+					var buf bytes.Buffer
+					warn, e := EncodeView(ctx, &buf, view, exportOptions, proc.Tx.Palette)
+					if e == nil {
+						if _, e = writer.Write(buf.Bytes()); e != nil {
+							e = NewSystemError(e.Error())
+						}
+					}
 
 					if e != nil {
 						if e == EmptyResultSetError {
